@@ -10,7 +10,10 @@ MANIFEST = {
             "(ASan+UBSan) against the compiled Lean driver, plus an independent property oracle.",
     "note": "Trusted: Lean kernel + propext/Classical.choice/Quot.sound; statements in lean/Properties/C20.lean; the "
             "harness/driver/comparator; little-endian x86-64; preconditions are explicit hypotheses checked per case "
-            "(key != invalid key, field zero before Write*, Pivot32 product < 2^64).",
+            "(key != invalid key, Insert only of keys not yet present, field zero before Write*, Pivot32 product < 2^64). "
+            "Probing table: hash arbitrary, any bucket count >= 1, keys/values naturals; AutoProbing's double-precision "
+            "threshold `buckets * 0.9` is taken as floor(9*buckets/10) and its initial size uses float32 — both exercised by "
+            "the correspondence stream on every construction/doubling, not proved.",
     "technique": "Lean 4 proof (induction/invariants over an executable model) + differential correspondence with the real code",
 }
 
@@ -19,7 +22,17 @@ REQUIRED = ["KV.C20.read_eq", "KV.C20.write_read", "KV.C20.write_frame", "KV.C20
             "KV.C20.required_bits_fits", "KV.C20.required_bits_minimal",
             "KV.C20.pivot32_acceptable", "KV.C20.pivot64_acceptable", "KV.C20.bounded_find_correct",
             "KV.C20.bounded_find_probes_in_range", "KV.C20.bounded_find_terminates",
-            "KV.C20.sorted_uniform_correct", "KV.C20.binary_find_correct"]
+            "KV.C20.sorted_uniform_correct", "KV.C20.binary_find_correct",
+            # probing hash table
+            "KV.C20.find_correct", "KV.C20.insert_spec", "KV.C20.full_throws", "KV.C20.findOrInsert_spec",
+            "KV.C20.scan_diverges_iff", "KV.C20.run_refines_map", "KV.C20.run_refines_map_from_empty",
+            "KV.C20.double_preserves", "KV.C20.auto_refines_map", "KV.C20.auto_refines_map_real",
+            "KV.C20.theta_real_ok", "KV.C20.power2_next_eq", "KV.C20.power2_ideal_eq", "KV.C20.power2_ctor_iff",
+            "KV.C20.power2_ops_eq", "KV.C20.power2_double_eq", "KV.C20.auto_refines_map_power2",
+            "KV.C20.inserted_found", "KV.C20.auto_inserted_found", "KV.C20.firstEmpty_diverges_iff",
+            "KV.C20.sized_table_holds", "KV.C20.probe_reads_in_range", "KV.C20.double_frame",
+            "KV.C20.run_with_double_refines_map",
+            "KV.C20.roundBuckets", "KV.C20.double_without_rollover_loses"]
 
 
 # ---------------------------------------------------------------- generators: bit fields
@@ -228,22 +241,515 @@ def search_stream(ctx, hexe, dexe, n_cases):
     return found
 
 
+# ---------------------------------------------------------------- generators: probing hash table
+M64 = (1 << 64) - 1
+
+
+def py_hash(kind, c, k):
+    return k if kind == "id" else (k * c) & M64 if kind == "mul" else (k >> c)
+
+
+def gen_keys(rng, n_keys, N, kind, c, invalid):
+    """Distinct keys != invalid, crafted so that many share an ideal bucket, cluster at the end
+    of the table (wrap-around) or equal a neighbour's hash."""
+    keys = []
+    seen = {invalid}
+    style = rng.choice(["collide", "tail", "small", "wide", "mixed", "mixed"])
+    hot = [rng.randrange(0, N) for _ in range(3)] + [N - 1, max(0, N - 2), 0]
+    tries = 0
+    while len(keys) < n_keys and tries < 50 * n_keys + 100:
+        tries += 1
+        st = style if style != "mixed" else rng.choice(["collide", "tail", "small", "wide", "hash"])
+        if st == "collide":
+            k = rng.choice(hot[:2]) + N * rng.randrange(0, 64)
+        elif st == "tail":
+            k = rng.choice([N - 1, max(0, N - 2), max(0, N - 3)]) + N * rng.randrange(0, 1 << rng.choice([3, 8, 40]))
+        elif st == "small":
+            k = rng.randrange(0, 4 * N + 4)
+        elif st == "hash" and keys:
+            k = py_hash(kind, c, rng.choice(keys)) & M64     # a key equal to another key's hash
+        else:
+            k = rng.getrandbits(64)
+        if kind == "shr":
+            k = (k << c) & M64 | rng.getrandbits(c) if c else k
+        k &= M64
+        if k in seen:
+            continue
+        seen.add(k)
+        keys.append(k)
+    return style, keys
+
+
+def gen_probing_fixed(rng, big=False):
+    """Script on a fixed-size table.  Returns ops, oracle [(index, expected-with-positions-erased)], meta."""
+    md = rng.choice(["div", "div", "p2"])
+    if md == "div":
+        N = rng.choice([1, 2, 3, 4, 5, 6, 7, 8, 11, 13, 16, 24, 33, rng.randrange(2, 70)])
+        if big:
+            N = rng.randrange(70, 700)
+    else:
+        N = rng.choice([1, 2, 4, 8, 16, 32, 64])
+        if big:
+            N = rng.choice([128, 256, 512])
+    invalid = rng.choice([0, 0, 1, M64, rng.getrandbits(64), rng.randrange(0, 8)])
+    kind = rng.choice(["id", "id", "id", "mul", "shr"])
+    c = (rng.getrandbits(64) | 1) if kind == "mul" else rng.choice([0, 1, 2, 3, 5]) if kind == "shr" else 0
+    ops, oracle = [], []
+
+    def emit(op, want):
+        oracle.append((len(ops), want))
+        ops.append(op)
+    if md == "p2" and rng.random() < 0.3:
+        emit("pnew p2 %d %d %s %d" % (rng.choice([3, 5, 6, 12, 0, 24, 255]), invalid, kind, c), "badsize")
+    emit("pnew %s %d %d %s %d" % (md, N, invalid, kind, c), "ok")
+    plan = rng.choice(["fill", "fill", "mixed", "mixed", "double", "double", "overflow"])
+    n_keys = rng.randrange(0, 3 * N + 3)
+    style, keys = gen_keys(rng, n_keys, N, kind, c, invalid)
+    d, order = {}, []
+    count = 0
+    curN = N
+    fresh = list(keys)
+    doublings = 0
+    fulls = 0
+
+    def absent_key():
+        for _ in range(20):
+            if order and rng.random() < 0.7:
+                k = (rng.choice(order) + curN * rng.randrange(1, 5)) & M64   # shares an ideal bucket (id hash)
+            else:
+                k = rng.getrandbits(rng.choice([3, 8, 64]))
+            if k != invalid and k not in d and k not in fresh:
+                return k
+        return None
+    n_ops = rng.randrange(1, 4 * N + 8)
+    if big:
+        n_keys = rng.randrange(N // 2, 2 * N)
+        n_ops = rng.randrange(2 * N, 3 * N)
+    for _ in range(n_ops):
+        r = rng.random()
+        can_double = plan == "double" and curN <= 512 and doublings < 5
+        if can_double and r < 0.12:
+            emit("dbl" + rng.choice(["", " noclear"]), "ok")
+            curN *= 2
+            doublings += 1
+            continue
+        if plan == "overflow" or (plan == "fill" and r < 0.75) or r < 0.4:
+            if not fresh:
+                k = absent_key()
+                if k is None:
+                    continue
+                fresh.append(k)
+            k = fresh.pop(0)
+            v = rng.getrandbits(rng.choice([4, 64]))
+            if rng.random() < 0.6:
+                count += 1
+                if count >= curN:
+                    emit("ins %d %d" % (k, v), "full"); fulls += 1
+                else:
+                    d[k] = v; order.append(k)
+                    emit("ins %d %d" % (k, v), "ok")
+            else:
+                count += 1
+                if count >= curN:
+                    emit("foi %d %d" % (k, v), "full"); fulls += 1
+                else:
+                    d[k] = v; order.append(k)
+                    emit("foi %d %d" % (k, v), "new")
+        elif r < 0.55 and order:
+            k = rng.choice(order)
+            emit("foi %d %d" % (k, rng.getrandbits(8)), "found %d" % d[k])
+        elif r < 0.8 and order:
+            k = rng.choice(order)
+            emit("find %d" % k, "found %d" % d[k])
+        elif r < 0.93:
+            k = absent_key()
+            if k is not None:
+                emit("find %d" % k, "absent")
+        elif r < 0.97:
+            emit("size", str(count))
+        else:
+            emit("pdump", "%d %d %s" % (curN, count, " ".join("%d:%d" % kv for kv in sorted(d.items()))))
+    if plan == "double" and curN <= 512 and rng.random() < 0.7:
+        emit("dbl", "ok")
+        curN *= 2
+        doublings += 1
+    for k in order:
+        emit("find %d" % k, "found %d" % d[k])
+    for _ in range(3):
+        k = absent_key()
+        if k is not None:
+            emit("find %d" % k, "absent")
+    emit("size", str(count))
+    emit("pdump", "%d %d %s" % (curN, count, " ".join("%d:%d" % kv for kv in sorted(d.items()))))
+    dup = False
+    if order and rng.random() < 0.08:
+        # outside the contract ("Multiple insertions won't cause a failure, just inconsistent lookup"): a second Insert
+        # of a present key; the oracle stops judging here, model and implementation are still compared line by line
+        dup = True
+        k = rng.choice(order)
+        emit("ins %d %d" % (k, rng.getrandbits(8)), None)
+        for q in rng.sample(order, min(len(order), 4)) + [k]:
+            emit("find %d" % q, None)
+        emit("foi %d 1" % k, None)
+        emit("size", None)
+        emit("pdump", None)
+    meta = {"mod": md, "dup": dup, "N": N, "plan": plan, "keys": len(d), "style": style, "hash": kind, "c": c, "doublings": doublings,
+            "fulls": fulls, "invalid0": invalid == 0}
+    return ops, oracle, meta
+
+
+def gen_probing_auto(rng, big=False):
+    init = rng.choice([0, 0, 1, 2, 3, 5, 6, 7, 10, 13, 20, 27, 100, rng.randrange(0, 300)])
+    invalid = rng.choice([0, 0, 1, M64, rng.getrandbits(64)])
+    kind = rng.choice(["id", "id", "mul", "shr"])
+    c = (rng.getrandbits(64) | 1) if kind == "mul" else rng.choice([0, 1, 2, 3]) if kind == "shr" else 0
+    ops, oracle = [], []
+
+    def emit(op, want):
+        oracle.append((len(ops), want))
+        ops.append(op)
+    emit("anew %d %d %s %d" % (init, invalid, kind, c), None)
+    n_keys = rng.choice([1, 3, 8, 20, 40, 100, rng.randrange(0, 400)])
+    if big:
+        n_keys = rng.randrange(400, 3000)
+    # clusters that wrap around the end of the table at several sizes: ideals just below powers of two
+    keys, seen = [], {invalid}
+    style = rng.choice(["wraps", "wraps", "collide", "wide", "mixed"])
+    tries = 0
+    while len(keys) < n_keys:
+        tries += 1
+        st = style if style != "mixed" else rng.choice(["wraps", "collide", "wide"])
+        if tries > 4 * n_keys + 50:
+            st = "wide"          # the crafted pools are finite
+        if st == "wraps":
+            j = rng.randrange(0, 10)
+            k = ((1 << j) - 1 - rng.randrange(0, 3)) % (1 << 64) + (rng.randrange(0, 64) << rng.choice([j, j + 1, 10]))
+        elif st == "collide":
+            k = rng.randrange(0, 4) + (rng.randrange(0, 256) << rng.choice([2, 4, 6, 9]))
+        else:
+            k = rng.getrandbits(64)
+        k &= M64
+        if k in seen:
+            continue
+        seen.add(k)
+        keys.append(k)
+    d, order = {}, []
+    for k in keys:
+        v = rng.getrandbits(rng.choice([4, 64]))
+        if rng.random() < 0.6:
+            emit("ains %d %d" % (k, v), "ok")
+        else:
+            emit("afoi %d %d" % (k, v), "new")
+        d[k] = v
+        order.append(k)
+        r = rng.random()
+        if r < 0.25:
+            q = rng.choice(order)
+            emit("afind %d" % q, "found %d" % d[q])
+        elif r < 0.4:
+            q = rng.choice(order)
+            emit("afoi %d %d" % (q, rng.getrandbits(8)), "found %d" % d[q])
+        elif r < 0.5:
+            q = (rng.choice(order) + (rng.randrange(1, 9) << rng.randrange(0, 12))) & M64
+            if q not in d and q != invalid:
+                emit("afind %d" % q, "absent")
+        elif r < 0.55:
+            emit("asize", str(len(d)))
+        elif r < 0.6:
+            emit("adump", None)
+    for k in order:
+        emit("afind %d" % k, "found %d" % d[k])
+    emit("asize", str(len(d)))
+    emit("adump", None)
+    if order and rng.random() < 0.08:
+        k = rng.choice(order)      # duplicate Insert: outside the contract, compared with the model only
+        emit("ains %d %d" % (k, rng.getrandbits(8)), None)
+        for q in rng.sample(order, min(len(order), 4)) + [k]:
+            emit("afind %d" % q, None)
+        emit("asize", None)
+        emit("adump", None)
+    meta = {"init": init, "keys": len(d), "style": style, "hash": kind, "c": c, "invalid0": invalid == 0, "items": sorted(d.items())}
+    return ops, oracle, meta
+
+
+def erase_pos(line):
+    """Drop the slot position from a harness answer (the map view of the oracle has none)."""
+    w = line.split()
+    if not w:
+        return line
+    if w[0] in ("ok", "new") and len(w) == 2:
+        return w[0]
+    if w[0] == "found" and len(w) == 3:
+        return "found " + w[2]
+    return line
+
+
+def dump_items(line):
+    """'N entries p:k:v …' -> (N, entries, [(p,k,v)])"""
+    w = line.split()
+    cells = [tuple(int(x) for x in c.split(":")) for c in w[2:]]
+    return int(w[0]), int(w[1]), cells
+
+
+def py_oracle(ops):
+    """The property oracle, independent of the Lean model: a Python dict with an insertion counter
+    and a capacity (fixed table) / a plain dict (AutoProbing).  Returns one expectation per op:
+    a string (answer with the slot position erased), ("dump", N, entries, items), ("adump", items)
+    or None (not judged: `ins` of a key that is already present is outside the contract)."""
+    out = []
+    d, count, N = {}, 0, 1
+    ad = {}
+    for op in ops:
+        w = op.split()
+        o = w[0]
+        if o == "pnew":
+            n = int(w[2])
+            if w[1] == "p2" and (n == 0 or n & (n - 1)):
+                out.append("badsize")
+            else:
+                d, count, N = {}, 0, n
+                out.append("ok")
+        elif o in ("ins", "foi"):
+            k, v = int(w[1]), int(w[2])
+            if k in d:
+                out.append("found %d" % d[k] if o == "foi" else None)
+                if o == "ins":      # duplicate Insert: the map view is undefined from here on
+                    return out + [None] * (len(ops) - len(out))
+                continue
+            count += 1
+            if count >= N:
+                out.append("full")
+            else:
+                d[k] = v
+                out.append("ok" if o == "ins" else "new")
+        elif o == "find":
+            k = int(w[1])
+            out.append("found %d" % d[k] if k in d else "absent")
+        elif o == "size":
+            out.append(str(count))
+        elif o == "pdump":
+            out.append(("dump", N, count, sorted(d.items())))
+        elif o == "dbl":
+            N *= 2
+            out.append("ok")
+        elif o == "anew":
+            ad = {}
+            out.append(None)
+        elif o in ("ains", "afoi"):
+            k, v = int(w[1]), int(w[2])
+            if k in ad:
+                out.append("found %d" % ad[k] if o == "afoi" else None)
+                if o == "ains":
+                    return out + [None] * (len(ops) - len(out))
+                continue
+            ad[k] = v
+            out.append("ok" if o == "ains" else "new")
+        elif o == "afind":
+            k = int(w[1])
+            out.append("found %d" % ad[k] if k in ad else "absent")
+        elif o == "asize":
+            out.append(str(len(ad)))
+        elif o == "adump":
+            out.append(("adump", sorted(ad.items())))
+        else:
+            out.append(None)
+    return out
+
+
+def oracle_mismatch(ops, got_lines):
+    """index of the first answer of the real table that the oracle rejects, or None"""
+    want = py_oracle(ops)
+    for idx, w in enumerate(want):
+        if w is None:
+            continue
+        if idx >= len(got_lines):
+            return idx, w
+        got = got_lines[idx]
+        if isinstance(w, tuple):
+            try:
+                N, ent, cells = dump_items(got)
+            except Exception:
+                return idx, w
+            items = sorted((k, v) for _, k, v in cells)
+            if len({p for p, _, _ in cells}) != len(cells) or any(p >= N for p, _, _ in cells):
+                return idx, w
+            if w[0] == "dump":
+                if (N, ent, items) != (w[1], w[2], w[3]):
+                    return idx, w
+            else:
+                # AutoProbing: content = the keys inserted so far, size = their number, buckets a power of two above
+                if items != w[1] or ent != len(w[1]) or N & (N - 1) or N <= len(cells):
+                    return idx, w
+        elif erase_pos(got) != w:
+            return idx, w
+    return None
+
+
+def probing_stream(ctx, hexe, dexe, n_cases):
+    found = False
+    n_viol = 0
+    for ci in range(n_cases):
+        if n_viol >= 3:
+            break
+        auto = ctx.rng.random() < 0.4
+        big = ctx.tier == "thorough" and ctx.rng.random() < 0.03
+        ops, _, meta = (gen_probing_auto if auto else gen_probing_fixed)(ctx.rng, big)
+        # exceeding capacity must raise, not loop: hard timeout on the real code
+        rc1, o1, e1 = stream.run_lines(hexe, ops, timeout=20)
+        rc2, o2, e2 = stream.run_lines(dexe, ops, timeout=120)
+        tag = "probing.auto" if auto else "probing.fixed"
+        # non-trivial: some entry sits away from its ideal bucket (a collision was resolved)
+        displaced = wrapped = False
+        last_dump = None
+        for idx, op in enumerate(ops):
+            if op in ("pdump", "adump") and idx < len(o1):
+                last_dump = o1[idx]
+        if last_dump and rc1 == 0:
+            try:
+                N, _, cells = dump_items(last_dump)
+                for p_, k_, _ in cells:
+                    idl = py_hash(meta["hash"], meta["c"], k_) % N
+                    if idl != p_:
+                        displaced = True
+                    if idl > p_:
+                        wrapped = True
+            except Exception:
+                pass
+        ctx.count((tag, tuple(ops)), nontrivial=meta["keys"] >= 3 and displaced)
+        ctx.hist(tag + ".keys", min(meta["keys"], 50) // 5 * 5)
+        ctx.hist("probing.wrapped_cluster", wrapped)
+        ctx.hist("probing.hash", meta["hash"])
+        ctx.hist("probing.invalid_is_zero", meta["invalid0"])
+        ctx.hist("probing.big", big)
+        if not auto:
+            ctx.hist("probing.mod", meta["mod"])
+            ctx.hist("probing.plan", meta["plan"])
+            ctx.hist("probing.doublings", meta["doublings"])
+            ctx.hist("probing.capacity_exceptions", min(meta["fulls"], 3))
+        if ci < 2:
+            ctx.sample({"stream": tag, "ops": ops[:14], "impl": o1[:14]})
+        if rc1 != 0:
+            small = stream.ddmin(ops, lambda l: stream.run_lines(hexe, l, timeout=5)[0] == rc1, keep_prefix=1, max_tests=40)
+            rcs, _, es = stream.run_lines(hexe, small, timeout=5)
+            what = ("probing table loops instead of raising / terminating (timeout)" if rcs == "timeout"
+                    else "harness died on probing script (rc=%s): %s" % (rcs, es[-400:]))
+            ctx.violation(what, {"stream": tag, "ops": small, "stderr": es[-2000:]})
+            found = True
+            n_viol += 1
+            continue
+        # property oracle: a Python dict with a capacity counter (independent of the Lean model)
+        bad = oracle_mismatch(ops, o1)
+        if bad:
+            def fails(l):
+                rc, o, _ = stream.run_lines(hexe, l, timeout=10)
+                return rc != 0 or oracle_mismatch(l, o) is not None
+            small = stream.ddmin(ops, fails, keep_prefix=1, max_tests=150)
+            rc, o, _ = stream.run_lines(hexe, small, timeout=10)
+            b2 = oracle_mismatch(small, o) if rc == 0 else None
+            idx = b2[0] if b2 else len(small) - 1
+            want = py_oracle(small)[idx]
+            ctx.violation("probing table answers %r where the map-with-capacity oracle says %r (op %r)" % (
+                o[idx] if idx < len(o) else None, want, small[idx]),
+                {"stream": tag, "ops": small, "op_index": idx, "impl": o[:idx + 1], "expected": want})
+            found = True
+            n_viol += 1
+        d = stream.first_diff(o1, o2)
+        if d is not None or rc2 != 0:
+            small = stream.ddmin(ops, lambda l: stream.disagree(hexe, dexe, l, timeout=20), keep_prefix=1, max_tests=150)
+            (r1, a1, _), (r2, a2, _) = stream.both(hexe, dexe, small, timeout=20)
+            d2 = stream.first_diff(a1, a2)
+            ctx.violation("model and implementation disagree on a probing-table operation (answer or exact slot layout)",
+                          {"stream": tag, "ops": small, "first_diff": d2,
+                           "impl": a1[d2] if d2 is not None and d2 < len(a1) else None,
+                           "model": a2[d2] if d2 is not None and d2 < len(a2) else None},
+                          no_input=not found)
+            found = True
+            n_viol += 1
+    return found
+
+
+HARNESS_EXTRA = ["/util/bit_packing.cc", "/util/exception.cc", "/util/integer_to_string.cc", "/util/mmap.cc",
+                 "/util/file.cc", "/util/scoped.cc", "/util/parallel_read.cc", "/util/spaces.cc", "/util/string_piece.cc"]
+
+
+def replay(ctx, path):
+    """Re-run the op script of a replay file on the real code and on the model.  Exit code 1 if it
+    still fails (harness dies / loops, the oracle rejects an answer, or model and code disagree)."""
+    import json
+    obj = json.load(open(path))
+    ops = obj.get("ops")
+    if not ops:
+        log("replay file has no op script (broken obligations: %s)" % obj.get("broken"))
+        return 1
+    ok, out = lean.lake_build(["drv_C20"])
+    ok2, hexe, lg = repo.harness("c20.cc", extra=[REPO + x for x in HARNESS_EXTRA])
+    if not ok or not ok2:
+        log("cannot build driver/harness: %s" % (lg if ok else out[-500:]))
+        return 1
+    dexe = lean.driver_path("drv_C20")
+    rc1, o1, e1 = stream.run_lines(hexe, ops, timeout=20)
+    rc2, o2, e2 = stream.run_lines(dexe, ops, timeout=60)
+    bad = False
+    if rc1 != 0:
+        log("real code: rc=%s %s" % (rc1, e1[-600:]))
+        bad = True
+    elif str(obj.get("stream", "")).startswith("probing"):
+        m = oracle_mismatch(ops, o1)
+        if m:
+            log("oracle rejects answer %d: op %r, real code %r, expected %r" % (
+                m[0], ops[m[0]], o1[m[0]] if m[0] < len(o1) else None, m[1]))
+            bad = True
+    d = stream.first_diff(o1, o2)
+    if d is not None:
+        log("model and implementation differ at op %d %r: impl %r model %r" % (
+            d, ops[d] if d < len(ops) else None, o1[d] if d < len(o1) else None, o2[d] if d < len(o2) else None))
+        bad = True
+    for i, op in enumerate(ops):
+        log("  %-40s impl=%-30s model=%s" % (op[:40], (o1[i] if i < len(o1) else None), (o2[i] if i < len(o2) else None)))
+    log("replay: %s" % ("still failing" if bad else "passes"))
+    return 1 if bad else 0
+
+
 def run(ctx):
     problems, consts = flow.proof_phase(ctx, "C20", required=REQUIRED, drivers=["drv_C20"])
-    ok, hexe, lg = repo.harness("c20.cc", extra=[REPO + "/util/bit_packing.cc", REPO + "/util/exception.cc",
-                                                 REPO + "/util/integer_to_string.cc"])
+    ok, hexe, lg = repo.harness("c20.cc", extra=[REPO + x for x in HARNESS_EXTRA])
     if not ok:
         problems.append(lg)
         flow.report_obligation_failures(ctx, problems, False)
         return
     dexe = lean.driver_path("drv_C20")
+    # private copy: the shared build cache may be pruned by a concurrent run on another tree
+    import os, shutil
+    from vlib.common import scratch_dir
+    priv = os.path.join(scratch_dir("run"), "c20_%d_%s" % (os.getpid(), os.path.basename(hexe)))
+    shutil.copy2(hexe, priv)
+    hexe = priv
+    try:
+        _streams(ctx, problems, hexe, dexe)
+    finally:
+        try:
+            os.remove(priv)
+        except OSError:
+            pass
+
+
+def _streams(ctx, problems, hexe, dexe):
     n = 150 if ctx.tier == "quick" else 4000
     found = bits_stream(ctx, hexe, dexe, n)
     found = search_stream(ctx, hexe, dexe, n) or found
+    found = probing_stream(ctx, hexe, dexe, 300 if ctx.tier == "quick" else 6000) or found
     ctx.cov["rule"] = ("bits: seeded scripts over buffers of 8..96 bytes with disjoint zero fields (widths 1..57 / 1..25 / "
                        "float32 / float31) among all-ones, random or zero neighbours, every bit offset mod 8; a case is "
-                       "non-trivial when it has >= 2 fields; distinct by op script")
+                       "non-trivial when it has >= 2 fields; distinct by op script.  probing: seeded op scripts on the real "
+                       "ProbingHashTable<DivMod|Power2Mod> (1..69 buckets, explicit Double up to 5 times) and AutoProbing "
+                       "(initial size 0..300, up to 400 keys), identity / multiplicative / shift hash, invalid key 0 or not, keys "
+                       "crafted to share ideal buckets and to cluster at the end of the table; non-trivial when >= 3 keys are "
+                       "stored and at least one sits away from its ideal bucket; answers, size, content and the exact slot "
+                       "layout compared")
     ctx.assumptions += ["little-endian x86-64 (BitPackShift identity branch)",
                         "target bits zero before Write* and value < 2^len (documented contract) for the property oracle; "
-                        "contract-violating writes are compared with the model only"]
+                        "contract-violating writes are compared with the model only",
+                        "probing: the invalid key is never inserted and Insert is only called with keys not yet present "
+                        "(documented contract); 64-bit keys, values and hashes; AutoProbing's threshold `buckets * 0.9` in "
+                        "double precision equals floor(9*buckets/10) (compared on every doubling through the bucket count)"]
     flow.report_obligation_failures(ctx, problems, found)
